@@ -38,7 +38,8 @@ RULE = (
     "non-trivial = both sides have at least one unset field, or the outcome is a refusal; distinct by canonical case hash"
 )
 TRUSTED = [
-    "instance-level wrapper of Input.exchange_info records the order of the exchanges (Composition mode)",
+    "instance-level wrappers: Input.exchange_info records the order of the exchanges (Composition mode), "
+    "Output.get_info counts the exchanges the output answered",
     "grid geometry ids / layouts and the unit table (dimension vector, factor) are hand-written in harness/props/c07.py "
     "and asserted against the public attributes of the constructed finam grids at import",
     "SumOverTime: pint's (units*s).to_reduced_units() enters the model as a finite table (oracle)",
@@ -244,10 +245,22 @@ def _zeros_for(info):
     return np.zeros(shape, dtype=float)
 
 
+def _count_get_info(out):
+    """instance-level wrapper at the Output boundary: number of get_info calls that returned"""
+    real = out.get_info
+    out._c07_count = [0]
+
+    def get_info(info):
+        r = real(info)
+        out._c07_count[0] += 1
+        return r
+
+    out.get_info = get_info
+
+
 def _finish(case, out, inputs, lasts, order_done, outcome):
     obs = {"outcome": outcome, "order": order_done}
-    ok_n = len(order_done) - (0 if outcome == "ok" else 1)
-    obs["exchanged"] = ok_n
+    obs["exchanged"] = out._c07_count[0]
     try:
         _ = out.info
         obs["gate"] = True
@@ -275,6 +288,7 @@ def _finish(case, out, inputs, lasts, order_done, outcome):
 def run_bare(case):
     st = case["static"]
     out = fm.Output(name="Out", static=st)
+    _count_get_info(out)
     inputs, lasts = [], []
     for k, c in enumerate(case["consumers"]):
         inp = fm.Input(name=f"In{k}", static=st)
@@ -375,6 +389,7 @@ def run_comp(case):
     listing.insert(min(case.get("prod_pos", 0), len(listing)), prod)
     comp = fm.Composition(listing, print_log=False)
     out = prod.outputs["Out"]
+    _count_get_info(out)
     inputs, lasts = [], []
     for k, c in enumerate(case["consumers"]):
         inp = conss[k].inputs["In"]
@@ -950,6 +965,15 @@ CORPUS = [
 ]
 
 
+MASK_KINDS = ["A", "B", "Z", "nomask", "FLEX", "NONE", None]
+
+
+def _mask_kind(kind, gname):
+    if kind in ("A", "B", "Z"):
+        return mask_in_layout(gname or "U43", kind)
+    return kind
+
+
 def generate(rng, tier):
     n = 1500 if tier == "quick" else 40000
     cases = [dict(c) for c in CORPUS]
@@ -962,6 +986,18 @@ def generate(rng, tier):
         c = _I(time=0 if bits[4] else None, grid="U43f" if bits[5] else None, units="km" if bits[6] else None,
                mask="FLEX" if bits[7] else None, k2=None)
         cases.append(_case(o, [(c, [])]))
+    # systematic part: all pairs of mask kinds x grid set/unset/other layout on a direct link
+    k = 0
+    for og in (None, "U43", "U43r"):
+        for cg in (None, "U43", "U43f", "U43r"):
+            for om in MASK_KINDS:
+                for cm in MASK_KINDS:
+                    k += 1
+                    if tier == "quick" and k % 3 != 0:
+                        continue
+                    o = _I(grid=og, mask=_mask_kind(om, og))
+                    c = _I(grid=cg, mask=_mask_kind(cm, cg))
+                    cases.append(_case(o, [(c, [["scale"]] if k % 2 else [])]))
     for i in range(n):
         cases.append(_gen_case(rng, i))
     return cases
